@@ -282,7 +282,7 @@ fn in_memory_ops(r: &Report) {
     let s = secp();
     // Transaction::blind with arbitrary marking / outputs
     let base = Scenario {
-        inputs: vec![InSpec { asset: 0, conf: true, issuance: None }, InSpec { asset: 1, conf: false, issuance: None }],
+        inputs: vec![InSpec { asset: 0, conf: true, issuance: None, asset_only: false }, InSpec { asset: 1, conf: false, issuance: None, asset_only: false }],
         outputs: vec![
             OutSpec { asset: 0, value: 10, kind: OutKind::Marked(2) },
             OutSpec { asset: 1, value: 11, kind: OutKind::Marked(3) },
